@@ -2,7 +2,7 @@
 Core F — helper lemmas for C16, part 4: enabledness.  Which program counters a thread can be
 stuck at, and what a state in which nothing can run looks like.
 -/
-import Mqtt.Proofs.LifecycleStop
+import Mqtt.Proofs.LifecycleRecv
 
 set_option linter.unusedSimpArgs false
 set_option linter.unusedVariables false
@@ -58,6 +58,7 @@ theorem recv_blocked (c : Cfg) (hw : WF c) (s : St) (hA : InvA c s) (h : en c s 
       omega
     | some q => obtain ⟨ret, r⟩ := q; cases ret <;> simp [hs] at h
   | close => rw [hpc] at h; simp [rstep, close_returns c hw.d2] at h
+  | connClose => rw [hpc] at h; simp [rstep] at h
   | wgDone => rw [hpc] at h; simp [rstep] at h
   | exited => right; right; rfl
 
@@ -461,22 +462,25 @@ theorem quiescent_cases (c : Cfg) (hw : WF c) (s : St) (hA : InvA c s) (hW : Inv
 
 /-! ## Reachable states, schedules, fair round-robin -/
 
-/-- all three invariants -/
+/-- all four invariants -/
 structure Inv (c : Cfg) (s : St) : Prop where
   a : InvA c s
   w : InvW s
   k : InvK s
+  r : InvR s
 
 theorem inv_init (c : Cfg) (s : St) (h : Init c s) : Inv c s :=
-  ⟨invA_init c s h, invW_init c s h, invK_init c s h⟩
+  ⟨invA_init c s h, invW_init c s h, invK_init c s h, invR_init c s h⟩
 
 theorem inv_step (c : Cfg) (hw : WF c) (s s' : St) (l : Label) (hi : Inv c s) (h : step c s l = some s') :
     Inv c s' := by
   cases l with
   | th t k =>
-    exact ⟨invA_step c hw s s' t k hi.a h, invW_step c hw s s' t k hi.w h, invK_step c hw s s' t k hi.a hi.k h⟩
+    exact ⟨invA_step c hw s s' t k hi.a h, invW_step c hw s s' t k hi.w h, invK_step c hw s s' t k hi.a hi.k h,
+      invR_step c hw s s' t k hi.r h⟩
   | env e =>
-    exact ⟨invA_env c hw s s' e hi.a h, invW_env c hw s s' e hi.w h, invK_env c hw s s' e hi.k h⟩
+    exact ⟨invA_env c hw s s' e hi.a h, invW_env c hw s s' e hi.w h, invK_env c hw s s' e hi.k h,
+      invR_env c hw s s' e hi.r h⟩
 
 theorem inv_run (c : Cfg) (hw : WF c) (s : St) (sched : List Label) (hi : Inv c s) : Inv c (run c s sched) := by
   induction sched generalizing s with
